@@ -290,7 +290,7 @@ Layout == [
   Nci |-> [type |-> 57, size |-> 16, fields |-> <<R, U8("ucid"), En("language", LanguageT), En("license", LicenseT), P(2),
             W32("userid"), Ip("ipaddress")>>],
   Jrr |-> [type |-> 58, size |-> 16, fields |-> <<R, U8("plid"), U8("ucid"), En("jrraction", JrrActionT), P(2), St("startpos", ObjectInfoF, 8)>>],
-  Uco |-> [type |-> 59, size |-> 28, fields |-> <<R, U8("plid"), P(1), En("ucoaction", UcoActionT), P(2), DurMs("time", 4),
+  Uco |-> [type |-> 59, size |-> 28, fields |-> <<R, U8("plid"), P(1), En("ucoaction", UcoActionT), P(2), DurCs("time", 4),
             St("c", CarContactF, 8), St("info", ObjectInfoF, 8)>>],
   Oco |-> [type |-> 60, size |-> 8, fields |-> <<R, P(1), En("ocoaction", OcoActionT), En("index", OcoIndexT), U8("identifier"),
             Fl("data", 1, OcoLightsT)>>],
